@@ -40,6 +40,8 @@ WHAT = {
  'lax str loader leaked ValueError': ("C04", "lax str loader: 10**5000 -> ValueError (int -> str conversion limit), also via Union[int, str], Dict[str, int] keys, LiteralString (l1_str_lax_sel tag=2 c0=8 c1=1)"),
  'InvalidOperation for a signaling NaN': ("C04", "lax Literal loader: Decimal('sNaN') -> decimal.InvalidOperation from the membership test (numeric_tower ti=30 di=0 kind=0)"),
  'generic pydantic model with one type variable': ("C16", "class PM(BaseModel, Generic[T]): PM[int] / PM handled by the iterable provider (BaseModel defines __iter__): {'x': 1, 'y': [2]} rejected with ExcludedTypeLoadError, dump returns a tuple of pairs (case_PM_int, case_PMOpt_int, case_PM_bare)"),
+ 'prefixed with g_': ("C19", "two linked functions named foo and g_foo in one converter: UnboundLocalError at creation, or (other recipe order) both fields computed by the same function (names_build; names_generated_helpers gi=55)"),
+ 'pasted into the generated code as their repr': ("C19", "impl_converter stub with a defaulted extra parameter: the default's repr was written into the generated def line: Decimal('1.5') -> NameError, plain object -> SyntaxError, an object whose repr is code -> executed (names_build; names_param_defaults di=1..8)"),
  'generic type aliases': ("C16", "type RevMap[K, V] = dict[V, K]: RevMap[int, str] loaded as dict[int, str] ({'a': 1} rejected, {1: 'a'} accepted) (alias_RevMap_int_str)"),
 }
 WHAT.update(json.load(open('/verif/tools/fixed_extra.json')) if __import__('os').path.exists('/verif/tools/fixed_extra.json') else {})
